@@ -757,6 +757,8 @@ type PtrNode struct {
 	El        *IntNode
 	IsNil     bool // Validate: destination pointer is nil
 	untouched bool
+	nilDrawn  bool
+	nilChoice bool
 }
 
 func newPtr(name string, notNil bool, el *IntNode) *PtrNode {
@@ -778,10 +780,10 @@ func (n *PtrNode) Prep(mode int, dest any) {
 		n.El.pre = 0
 		return
 	}
-	n.IsNil = false
-	if !forcePtrNonNil {
-		n.IsNil = v.Choice(n.name+".nil", 2) == 1
+	if !n.nilDrawn {
+		n.nilDrawn, n.nilChoice = true, v.Choice(n.name+".nil", 2) == 1
 	}
+	n.IsNil = n.nilChoice && !forcePtrNonNil
 	if n.IsNil {
 		*d = nil
 	} else {
